@@ -102,10 +102,24 @@ class Sizer:
             return 20    # Token wraps [u8; 20] (C06 TYPE rule)
         if find_calls(t, 'announce_tokens') or ((find_calls(t, '::get') or find_calls(t, '::filter_map')) and 'announce_tokens' in str(t)):
             return REMOTE_TOKEN
+        if find_calls(t, '::filter_map') and self._closure_reads_tokens(t):
+            return REMOTE_TOKEN
         if t[0] == 'str':
             return len(t[1].encode())
         self.notes.append('unbounded %s: %s' % (what, fmt(t)[:80]))
         return INF
+
+    def _closure_reads_tokens(self, t):
+        """a closure inside the term looks the token up in the `announce_tokens` map (whatever it captured)"""
+        for x in lib.term_walk(t):
+            if isinstance(x, tuple) and len(x) == 3 and x[0] == 'closure' and self.ctx.f.body(x[1]) is not None:
+                cs = Sym(self.ctx.f.body(x[1]))
+                cs.run()
+                for p in cs.paths:
+                    for e in p.effects:
+                        if e[0] == 'call' and e[1] and e[1].split('::')[-1] == 'get' and e[2] and 'announce_tokens' in field_chain(strip_transparent(e[2][0])):
+                            return True
+        return False
 
     def request_size(self, inner):
         """size of the `a` dictionary and the `q` name of a Request aggregate"""
